@@ -15,7 +15,7 @@ s = re.sub(r'<!-- FINDINGS-BEGIN -->.*?<!-- FINDINGS-END -->', lambda m: '<!-- F
 rows = ['| seeded change | aimed at | needs, in order to manifest | caught by |', '|---|---|---|---|']
 for d in sorted(glob.glob('/verif/seeded/*')):
     m = json.load(open(d + '/meta.json'))
-    rows.append('| %s | %s | %s | %s |' % (m['id'], m['breaks_property'], m['needs_to_manifest'].replace('|', '\\|'), ', '.join(m['caught_by'])))
+    rows.append('| %s | %s | %s | %s |' % (m['id'], m['breaks_property'], m['needs_to_manifest'].replace('|', '\\|'), ', '.join(m['caught_by']) if m['caught_by'] else '— (no verdict: ' + m.get('not_decided','')[:160] + ' …)'))
 s = re.sub(r'<!-- SEEDED-BEGIN -->.*?<!-- SEEDED-END -->', lambda m: '<!-- SEEDED-BEGIN -->\n' + '\n'.join(rows) + '\n<!-- SEEDED-END -->', s, flags=re.S)
 brow = ['| behaviour-preserving change | what it changes internally | result of running all checks against it |', '|---|---|---|']
 for d in sorted(glob.glob('/verif/benign/*')):
